@@ -72,7 +72,8 @@ where
                     indent = self.skip_blank_inline();
                     if let Some(b) = get_current_byte!(self) {
                         if indent == 0 {
-                            if b != &b'\r' && b != &b'\n' {
+                            // only a line end continues the pattern here; a lone `\r` is text
+                            if !self.is_eol() {
                                 break;
                             }
                         } else if !Self::is_byte_pattern_continuation(*b) {
